@@ -198,6 +198,16 @@ fn ma_slot<T: Scalar>(mk: MaK, n: usize, m: &Spec, class: Class, len: usize, rng
         fed_count.push(env.probes[0].borrow().len());
     }
     let fed: Vec<T> = env.probes[0].borrow().clone();
+    out.cell(&cell, 1);
+    if let Some(i) = (0..fed_count.len()).find(|&i| fed_count[i] > if i == 0 { 0 } else { fed_count[i - 1] } + 1) {
+        out.violation(
+            &host.top(),
+            "ma-slot-fed-once-per-update",
+            "any",
+            format!("{} at {}: step {}: the moving-average slot was updated {} times during one update of the host\n{}", host.show(), T::NAME, i, fed_count[i] - if i == 0 { 0 } else { fed_count[i - 1] }, show_inputs(&xs, i, 24)),
+        );
+        return;
+    }
     if fed.iter().any(|v| !v.is_finite()) {
         out.inconclusive("ma-slot fed non-finite");
         return;
